@@ -19,35 +19,40 @@ def run_steps(ctx, n):
         if r['error']:
             ctx.fail('step-harness-error', r['error'], c)
         for b in r['bad'][:1]:
-            ctx.fail('release-not-closed-form', b, c)
+            # recorded finding: ghost clipping with column-shaped per-sample losses releases sum_chunks (sum_j c_j)(sum_i g_i) (checked by the harness)
+            col = c['clipping'] == 'ghost' and c.get('lcol') and r.get('defect_form') is True
+            ctx.fail('ghost-column-loss-unclipped' if col else 'release-not-closed-form', b, c)
     return steps, res
 
 
 def engine_numbers(ctx):
-    """expected_batch_size = int(N * (1/L)) and the optimizer class table on the real code vs the generated definitions"""
+    """expected_batch_size of the real make_private and the optimizer class table vs the generated definitions"""
     r = ctx.rng
-    cases = [(r.randint(1, 5000), r.randint(1, 400)) for _ in range(ctx.n(300, 3000))]
+    cases = [(r.randint(1, 5000), r.randint(1, 400)) for _ in range(ctx.n(300, 3000))]          # (dataset size, batch size)
+    cases += [(l * b, b) for l in (49, 98, 103, 107, 161, 187, 196) for b in (1, 3, 64)]
     real = [[[r.choice([12, 32, 64, 50]), r.choice([4, 8, 5]), r.random() < 0.5, r.choice(['hooks', 'ghost', 'functorch'])] for _ in range(r.randint(1, 3))] for _ in range(ctx.n(6, 40))]
+    # loader lengths for which fl(1/L) * N rounds below the integer N/L (49, 98, 103, 107, 161, 187, ...)
+    real += [[[3136, 64, True, 'hooks'], [49, 1, False, 'hooks']], [[206, 2, True, 'ghost']], [[107 * 3, 3, False, 'hooks'], [161 * 5, 5, True, 'hooks']]]
     py = vlib.run_impl('engine_numbers.py', {'ebs': cases, 'classes': True, 'real': real})
     for seq, got in zip(real, py['real']):
         ctx.case({'engine_calls': seq}, nontrivial=len(seq) > 1, kind='engine-ebs/%d-calls' % len(seq))
         for k, ((n, bs, poisson, mode), (ebs, L)) in enumerate(zip(seq, got)):
-            want = int(n * (1 / L))
+            want = n // L           # the integer part of q * N for q = 1/L (exact: B when the batch size divides N)
             if ebs != want:
-                ctx.fail('engine-expected-batch-size', 'make_private call #%d on one engine (dataset of %d, loader of %d batches, %s): expected_batch_size %r, int(N * 1/L) = %d'
+                ctx.fail('engine-expected-batch-size', 'make_private call #%d on one engine (dataset of %d, loader of %d batches, %s): expected_batch_size %r, integer part of N/L = %d'
                          % (k + 1, n, L, mode, ebs, want), {'engine_calls': seq})
                 break
     header = ('From Coq Require Import ZArith List String Floats.PrimFloat.\nFrom OV Require Import Base.Num Base.NumF Base.Py Gen.Engine.\n'
               'Import ListNotations.\n')
-    items = ['(%d%%Z, %d%%Z, %d%%Z)' % (n, l, e) for (n, l), e in zip(cases, py['ebs'])]
+    items = ['(%d%%Z, %d%%Z, %d%%Z)' % (n, l, e) for (n, l, e) in py['ebs']]
     body = ('Definition cases : list (Z * Z * Z) := [\n ' + ';\n '.join(items) + '\n].\n'
-            'Definition bad := filter (fun c => let \'(n, l, e) := c in negb (Z.eqb (engine_expected_batch_size n (engine_sample_rate l)) e)) cases.\n'
+            'Definition bad := filter (fun c => let \'(n, l, e) := c in negb (Z.eqb (engine_expected_batch_size n l (engine_sample_rate l)) e)) cases.\n'
             'Eval vm_compute in (map (fun c => fst (fst c)) bad).\n')
     rc, out = vlib.coq_eval('cases_c03e_%d' % (ctx.seed % 100000), header, body)
     lists = vlib.parse_eval_lists(out)
     ok = rc == 0 and len(lists) == 1 and not lists[0]
     ctx.traces += len(items)
-    ctx.obligation('correspondence:expected-batch-size-binary64', ok, '' if ok else 'generated int(N * (1/L)) differs from Python: ' + out[-300:])
+    ctx.obligation('correspondence:expected-batch-size(model=real make_private)', ok, '' if ok else 'generated expected_batch_size differs from the real make_private: ' + out[-300:])
     # class table
     want = {('flat', False, 'hooks'): 'DPOptimizer', ('flat', True, 'hooks'): 'DistributedDPOptimizer', ('per_layer', False, 'hooks'): 'DPPerLayerOptimizer',
             ('per_layer', True, 'hooks'): 'DistributedPerLayerOptimizer', ('per_layer', True, 'ew'): 'SimpleDistributedPerLayerOptimizer',
@@ -68,7 +73,7 @@ def run(ctx, gen_status):
 
 
 def search(ctx):
-    if ctx.failures:
+    if any(f['key'] != 'ghost-column-loss-unclipped' for f in ctx.failures):
         return
     run_steps(ctx, 400)
 
@@ -79,9 +84,11 @@ def replay_case(ctx, failure):
     if 'clipping' in c:
         r = vlib.run_impl('clip_numeric.py', {'sens': [], 'step': [c]})['step'][0]
         for b in r['bad'][:1]:
-            ctx.fail('release-not-closed-form', b, c)
+            # recorded finding: ghost clipping with column-shaped per-sample losses releases sum_chunks (sum_j c_j)(sum_i g_i) (checked by the harness)
+            col = c['clipping'] == 'ghost' and c.get('lcol') and r.get('defect_form') is True
+            ctx.fail('ghost-column-loss-unclipped' if col else 'release-not-closed-form', b, c)
     elif 'engine_calls' in c:
         got = vlib.run_impl('engine_numbers.py', {'real': [c['engine_calls']]})['real'][0]
-        bad = [(k, ebs) for k, ((n, bs, _, _), (ebs, L)) in enumerate(zip(c['engine_calls'], got)) if ebs != int(n * (1 / L))]
+        bad = [(k, ebs) for k, ((n, bs, _, _), (ebs, L)) in enumerate(zip(c['engine_calls'], got)) if ebs != n // L]
         return not bad, bad or 'holds'
     return len(ctx.failures) == n0, ctx.failures[n0:] or 'holds'
